@@ -160,31 +160,36 @@ def taint_rules(rep, F, tag="", controls=True):
     rep.rule("R20.1", "sources of nondeterminism are enumerated from resolved callees (hash iteration under RandomState, pointer->integer)")
     rep.rule("R20.2", "no value derived from hash-iteration order or from an allocation address reaches an ordered container, a tie-sensitive selection or an ordering decision")
     for name, pol in (("hash-order", HashOrderPolicy()), ("ptr-order", PtrIntPolicy())):
-        T = Taint(F, pol)
-        finds = T.run(extra_crates=("geo_verif_roots",) if controls else ())
+        T = Taint(F, pol, extra_crates=("geo_verif_roots",) if controls else ()).run()
         srcs = {}
-        for lab, fn, line in T.sources:
+        for (fkey, line, lab), fn in T.sources.items():
             if fn.crate != "geo_verif_roots":
                 srcs[(fn.path, lab)] = (fn, line)
         for (fp, lab), (fn, line) in sorted(srcs.items()):
             rep.ok("R20.1", "%s-source:%s%s" % (name, fp, tag), sample={"source": lab, "at": "%s:%d" % (fn.rel_file, line)})
         ctl = False
         bad_fns = {}
-        for fn, c, msg, lab in finds:
-            if fn.crate == "geo_verif_roots":
-                ctl = True
-                continue
-            # sorted afterwards on every path to the exits?
-            if name == "hash-order" and sorted_afterwards(fn, c):
-                rep.ok("R20.2", "%s:resorted:%s%s" % (name, fn.path, tag), sample="%s then sorted before every exit" % msg)
-                continue
-            # one finding per *source* function: downstream sinks reached through summaries are flows of the same leak
-            m = re.search(r" in (\S.*)$", lab or "")
-            src_fn = m.group(1) if m else fn.path
-            top = F.fns.get(src_fn, fn)
-            while top.kind == "Closure" and top.parent in F.by_key:
-                top = F.by_key[top.parent]
-            bad_fns.setdefault(top.path, []).append((fn, c, msg, lab))
+        for fn in T.fns:
+            for c, ls in T.tainted_calls(fn):
+                targs = [i for i, s in enumerate(ls) if s]
+                msg = pol.sink(c, targs, T)
+                if not msg:
+                    continue
+                lab = sorted(ls[targs[0]])[0]
+                if fn.crate == "geo_verif_roots":
+                    ctl = True
+                    continue
+                # sorted afterwards on every path to the exits?
+                if name == "hash-order" and sorted_afterwards(fn, c):
+                    rep.ok("R20.2", "%s:resorted:%s%s" % (name, fn.path, tag), sample="%s then sorted before every exit" % msg)
+                    continue
+                # one finding per *source* function: downstream sinks reached through summaries are flows of the same leak
+                m = re.search(r" in (\S.*)$", lab or "")
+                src_fn = m.group(1) if m else fn.path
+                top = F.fns.get(src_fn, fn)
+                while top.kind == "Closure" and top.parent in F.by_key:
+                    top = F.by_key[top.parent]
+                bad_fns.setdefault(top.path, []).append((fn, c, msg, lab))
         for fp, items in sorted(bad_fns.items()):
             key = "%s:%s%s" % (name, fp, tag)
             fn, c, msg, lab = items[0]
